@@ -114,8 +114,8 @@ func (s *scheduler) block(fr *frame, what string, cond func() bool) {
 func (s *scheduler) spawn(fr *frame, fn value, args []value) {
 	g := &goroutine{id: len(s.gs), wake: make(chan struct{}, 1), what: "start"}
 	s.gs = append(s.gs, g)
-	if len(s.gs) > 12 {
-		panic(pathEnd{stUnsupported, "more than 12 goroutines"})
+	if len(s.gs) > 64 {
+		panic(pathEnd{stUnsupported, "more than 64 goroutines"})
 	}
 	s.wg.Add(1)
 	i := s.i
@@ -185,7 +185,7 @@ func (s *scheduler) pickAfterExit() *goroutine {
 		return nil
 	}
 	k := 0
-	if len(cands) > 1 {
+	if len(cands) > 1 && !s.single {
 		func() {
 			defer func() {
 				if r := recover(); r != nil {
